@@ -144,3 +144,22 @@ Definition ex_fac : config := mkC [ mkP (3,0) [1] [] [0] ] [] [ (0, 1) ].
 Example ex_fac_rejected :
   build ex_fac = Err EFactory /\ service_log [Exp 3 0; Recv 3 1] ex_fac = [Create (Exp 3 0)] /\ validate ex_fac = true.
 Proof. vm_compute. repeat split; reflexivity. Qed.
+
+(* selective routing on ex_pairs: the traces->metrics instance of connector 10 offers metrics/p0 and metrics/p1 *)
+Example ex_router_consumer :
+  router_consumer [(1,0); (1,1)] [(1,0); (1,0)] = Some [(1,0); (1,0)] /\
+  router_consumer [(1,0); (1,1)] [(1,0); (2,0)] = None /\ router_consumer [(1,0); (1,1)] [] = None /\
+  match build ex_pairs with
+  | Ok g => route_deliver g (Conn 0 1 10) [(1,0); (1,0)] = Some [(Exp 1 0, []); (Exp 1 0, [])] /\
+            route_deliver g (Conn 0 1 10) [(1,0); (2,0)] = None
+  | Err _ => False
+  end.
+Proof. vm_compute. repeat split; reflexivity. Qed.
+
+(* exporters_reached_exact on ex1: traces/p1 feeds metrics/p0 through connector 10, so receiver traces/0 reaches
+   the metrics exporter 1 *)
+Example ex1_feeds : feeds ex1 (mkP (0,1) [0] [] [0;10]) (mkP (1,0) [10] [2] [0;1]).
+Proof.
+  exists [mkP (1,0) [10] [2] [0;1]]. split; [|reflexivity]. split; [|exact I].
+  split; [simpl; auto|]. split; [simpl; auto|]. exists 10. split; [simpl; auto|]. split; [simpl; auto|]. vm_compute. reflexivity.
+Qed.
